@@ -30,6 +30,17 @@ def oracle_snapshot(spec, problem, snap):
         return ("violation-inconsistent", cv, ecv)
     if feasible is None or bool(feasible) != (ecv == 0):
         return ("feasibility-inconsistent", feasible, ecv == 0)
+    # independently of the library's own constraint functions: the declared expressions, read as relations
+    import operator as _op
+    import re as _re
+    rel = {"==": _op.eq, "<=": _op.le, ">=": _op.ge, "!=": _op.ne, "<": _op.lt, ">": _op.gt}
+    holds = True
+    for expr, x in zip(getattr(spec, "cops", []), ec):
+        m = _re.match(r"\s*(==|<=|>=|!=|<|>)\s*(.*)$", expr)
+        if m:
+            holds = holds and bool(rel[m.group(1)](float(x), float(m.group(2))))
+    if getattr(spec, "cops", None) and len(spec.cops) == len(ec) and (cv == 0) != holds:
+        return ("violation-contradicts-declared-constraints", cv, "0 (every declared relation holds)" if holds else "> 0 (a declared relation is false)")
     return None
 
 
